@@ -146,8 +146,9 @@ def run(ctx, rep):
                ('pytableaux.proof.common', 'Node.for_mapping')}
     nq = 0
     for (amod, aqn) in list(allowed):
-        # private helpers called only from a reviewed site belong to it
-        allowed |= {(amod, q) for q in astq.helper_closure(m, amod, aqn.rsplit('.', 1)[0], {aqn})}
+        # private helpers called only from reviewed sites (of the same module) belong to them
+        owners = {q for mo, q in allowed if mo == amod}
+        allowed |= {(amod, q) for q in astq.helper_closure(m, amod, aqn.rsplit('.', 1)[0], owners)}
     for mod, qn, fn in astq.iter_functions(m):
         for c in astq.calls(fn, nested=False):
             nm = astq.call_name(c)
